@@ -14,7 +14,7 @@ from vt.checks import c01
 from vt.gen import grammar as G
 from vt.gen import inputs as I
 from vt.harness import Outcome
-from vt.ref import peg
+from vt.ref import engine, peg
 
 ID = "C19"
 LEVEL = "exploration"
@@ -81,8 +81,8 @@ def evaluate(case):
         memo = c01.make_metamodel(g, cfg, memoization=True)
     except TextXError as e:
         return out.add("grammar_rejected", f"{gtext!r}: {e}")
-    sfx = "/mixed_whitespace_modes" if mixed_modes(g) else ""
-    out.cls("mixed_modes" if sfx else "mode_uniform")
+    sfx0 = "/mixed_whitespace_modes" if mixed_modes(g) else ""
+    out.cls("mixed_modes" if sfx0 else "mode_uniform")
     out.sample = {"grammar": gtext, "cfg": cfg, "inputs": case["inputs"][:3]}
     backtracks = False
     seq = list(case["inputs"]) + case["inputs"][:1]
@@ -94,12 +94,24 @@ def evaluate(case):
         a = outcome(plain, text)
         b = outcome(memo, text)
         ctx = f"grammar={gtext!r} cfg={cfg} input={text!r} (load #{i + 1} on the memoizing metamodel)"
+        sfx = sfx0
+        if sfx0 and (a[0] != b[0] or a[1] != b[1]):
+            # causal attribution to the recorded engine finding F-C19a: with one cache per whitespace mode the
+            # memoizing parser must agree with the plain one; only then is the disagreement put down to the
+            # mode-blind cache key
+            with engine.mode_aware_memoization():
+                b2 = outcome(memo, text)
+            same = b2[0] == a[0] and (b2[1] == a[1] if a[0] != "ok" else D.diff(b2[1], a[1]) is None)
+            sfx = "/engine:mode_blind_cache" if same else ""
+        known = sfx == "/engine:mode_blind_cache"
         if a[0] != b[0]:
-            out.add(f"acceptance/{a[0]}_without_{b[0]}_with_memoization" + sfx, ctx + f": without {a}, with {b}")
+            out.add("acceptance" + sfx if known else f"acceptance/{a[0]}_without_{b[0]}_with_memoization",
+                    ctx + f": without {a}, with {b}")
         elif a[0] == "ok":
             df = D.diff(b[1], a[1])
             if df:
-                out.add("model_differs/" + df[0] + sfx, ctx + f" at {df[1]}: with memoization {df[2]} without")
+                out.add("model_differs" + sfx if known else "model_differs/" + df[0],
+                        ctx + f" at {df[1]}: with memoization {df[2]} without")
         elif a[1] != b[1]:
             out.add("error_position" + sfx, ctx + f": without {a[1]}, with {b[1]}")
     if backtracks:
